@@ -9,7 +9,7 @@
                       panic, and the implementation's own print-then-parse
                       returns the value it had accepted) *)
 From Coq Require Import List NArith Bool.
-From SNT Require Export Base.Outcome Base.Report Keys.KeyMap Keys.KeyParse Keys.KeyParseProofs.
+From SNT Require Export Base.Outcome Base.Report Keys.KeyMap Keys.KeyParse.
 Import ListNotations.
 Local Open Scope N_scope.
 
